@@ -14,6 +14,7 @@
 package errors
 
 import (
+	"errors"
 	"fmt"
 	"strings"
 
@@ -448,7 +449,10 @@ func (e *Error) WithCause(cause error) *Error {
 //	    // Handle other errors
 //	}
 func IsCode(err error, code ErrorCode) bool {
-	if e, ok := err.(*Error); ok {
+	// errors.As: the entry points wrap their structured error ("parsing
+	// failed: %w"), and a wrapped error has the code of the error it wraps
+	var e *Error
+	if errors.As(err, &e) && e != nil {
 		return e.Code == code
 	}
 	return false
@@ -481,7 +485,8 @@ func IsCode(err error, code ErrorCode) bool {
 //	    log.Printf("SQL error [%s]: %v", code, err)
 //	}
 func GetCode(err error) ErrorCode {
-	if e, ok := err.(*Error); ok {
+	var e *Error
+	if errors.As(err, &e) && e != nil {
 		return e.Code
 	}
 	return ""
